@@ -105,6 +105,10 @@ class C27(Prop):
                     w["next"] += 1
                     w["queue"].add(j)
                     w["log"].append(["submit", j, w["cur"]()])
+                    # the job's exit code is fixed at submission (n-th submitted job <-> n-th job spec), so that
+                    # scontrol reports the job's OWN code even if the job is cancelled before it ever ran
+                    n = len(w["subm"])
+                    w["rc"][j] = w["jobs"][n]["rc"] if n < len(w["jobs"]) else 0
                     w["subm"].append(j)
                     return str(j), 0
                 if cmd[0] == "squeue":
@@ -180,7 +184,7 @@ class C27(Prop):
         asyncio = k.asyncio
         jobs = case["jobs"]
         self.world = w = {"log": [], "queue": set(), "next": 100, "rc": {}, "subm": [], "expiring": False,
-                          "cur": None}
+                          "cur": None, "jobs": jobs}
         conn = k.qm.SlurmConnector("slurm", "/nonexistent", connector=k.Inner(), service=None, pollingInterval=3600,
                                    maxConcurrentJobs=10)
         conn._scheduled_jobs = k.LogDict()
